@@ -47,11 +47,19 @@ Init ==
              /\ \E cs \in OrderCases :
                   /\ id = [o |-> cs.o, pos |-> cs.pos, i |-> cs.i, h |-> cs.h]
                   /\ prog = HOrder(cs.e)
+          \/ /\ Mode \in {"pairs", "singles", "order"}
+             /\ \E cs \in StmtCases :
+                  /\ id = [o |-> cs.o, pos |-> cs.pos, i |-> cs.i, h |-> cs.h]
+                  /\ prog = HOrderStmt(cs.body)
           \* values that differ per activation, live across a re-entrant call (SyltOrder)
           \/ /\ Mode \in {"pairs", "singles", "reent", "reentsingles"}
              /\ \E cs \in (IF Mode \in {"singles", "reentsingles"} THEN ReentSingles ELSE ReentPairs \cup ReentSingles) :
                   /\ id = [o |-> cs.o, pos |-> cs.pos, i |-> cs.i, h |-> cs.h]
                   /\ prog = HRecDep(cs.e, cs.ty)
+          \/ /\ Mode \in {"pairs", "singles", "reent", "reentsingles", "reentbig"}
+             /\ \E cs \in ReentBig :
+                  /\ id = [o |-> cs.o, pos |-> cs.pos, i |-> cs.i, h |-> cs.h]
+                  /\ prog = HRecDepBig(cs.e, cs.ty, cs.k)
 
 StartId == LET c == {t \in 1..Len(prog) : prog[t].k = "def" /\ prog[t].n = "start"} IN
            IF c = {} THEN 0 - 5 ELSE prog[CHOOSE t \in c : TRUE].b
